@@ -1,6 +1,6 @@
 (* C20 correspondence: how one observed implementation result is compared with the model
    (instance H := sha256).  Used by the generated run/C20/cases_*.v files; not part of any theorem. *)
-From Hy Require Import lib.Harness model.C20_Punch.
+From Hy Require Import lib.Harness model.C20_Punch model.C20_Owner.
 From Coq Require Import ZArith.
 Local Open Scope N_scope.
 
@@ -102,11 +102,25 @@ Inductive sop :=
     (* the Respond in flight is observed to its end: noev = it was still waiting and ended by
        timeout / cancellation; otherwise e = the event it returned with (None: it never registered) *)
 
+(* ---- the server runtime that owns the socket (harness in app/cmd): the raw-socket log ---- *)
+(* where on the call stack the caller of ReadFrom / SetReadDeadline on the raw socket was found *)
+Inductive osite := OsQuic | OsStartup | OsReRegister | OsConnect | OsOther.
+
+Inductive rlog :=
+| LServe                                                   (* startRealmServerRuntime has returned, the QUIC-side reader starts *)
+| LRead (r : reader) (st : osite) (p : list byte) (port : Z) (stun : bool)
+    (* a ReadFrom on the raw socket returned datagram p from 127.0.0.1:port to r; stun = the oracle *)
+| LDeadline (r : reader) (st : osite) (on : bool)          (* SetReadDeadline on the raw socket (on = a non-zero time) *)
+| LErr (r : reader).                                       (* a ReadFrom on the raw socket returned a timeout to r *)
+
 Inductive case :=
 | CEnc (ty : N) (m : rmeta) (r : cres)
 | CDec (packet : list byte) (m : rmeta) (r : cres)
 | CDemux (cap : Z) (ops : list dop)
-| CServer (cap : Z) (ops : list sop).
+| CServer (cap : Z) (ops : list sop)
+| CRt (id : list byte) (m : rmeta) (log : list rlog) (quic : list N).
+    (* one history of the realm server runtime with attempt (id, m) registered on the conn throughout;
+       quic = what the QUIC-side ReadFrom returned, as indices into log *)
 
 Definition pev_eqb (a b : pev) : bool :=
   bytes_eq (e_id a) (e_id b) && bytes_eq (fst (e_from a)) (fst (e_from b)) &&
@@ -345,6 +359,99 @@ Fixpoint srun_ops (orc : list byte -> bool) (obs : list pev) (s : sstate) (w : o
       end
   end.
 
+(* ---- runtime histories ---- *)
+Definition to_site (st : osite) : option site :=
+  match st with OsStartup => Some SiteStartup | OsReRegister => Some SiteReRegister | OsConnect => Some SiteConnect | _ => None end.
+
+Definition phase_eqb (a b : phase) : bool :=
+  match a, b with PStartup, PStartup | PServing, PServing => true | _, _ => false end.
+
+(* may r, found at st, touch the read side of the socket in phase ph?  Read off the model's
+   transcription of server.go (site_how, site_phase), not off the run *)
+Definition reader_allowed (ph : phase) (r : reader) (st : osite) : bool :=
+  match r with
+  | RQuic => match st, ph with OsQuic, PServing => true | _, _ => false end
+  | RDirect => match to_site st with
+               | Some x => match site_how x with HowDirect => phase_eqb (site_phase x) ph | HowDemux => false end
+               | None => false
+               end
+  | RVia => false
+  end.
+
+Definition rt_addr (port : Z) : addr := mkAddr true [x7f; x00; x00; x01] port.
+Definition rt_pick : list pev -> nat := fun _ => 0%nat.
+
+Definition rt_stun_set (log : list rlog) : list (list byte) :=
+  flat_map (fun e => match e with LRead _ _ p _ true => [p] | _ => [] end) log.
+Definition rt_nonstun_set (log : list rlog) : list (list byte) :=
+  flat_map (fun e => match e with LRead _ _ p _ false => [p] | _ => [] end) log.
+
+(* replay the log through the socket-ownership LTS: every raw read is the arrival of that datagram
+   followed by the read; a reader the model does not know in that phase, or a timeout without an
+   armed deadline, is a disagreement *)
+Fixpoint rt_replay (orc : list byte -> bool) (s : ostate) (log : list rlog) : option ostate :=
+  match log with
+  | [] => Some s
+  | LServe :: t =>
+      match o_ph s, ostep256 orc s OServe with
+      | PStartup, Ok (s', _) => rt_replay orc s' t
+      | _, _ => None
+      end
+  | LRead r st p port _ :: t =>
+      if reader_allowed (o_ph s) r st then
+        match orun256 orc s [OArrive (mkDg p (rt_addr port)); ORead r rt_pick] with
+        | Ok (s', _) => rt_replay orc s' t
+        | _ => None
+        end
+      else None
+  | LDeadline r st on :: t =>
+      if reader_allowed (o_ph s) r st then
+        match ostep256 orc s (OSetDeadline r on) with
+        | Ok (s', _) => rt_replay orc s' t
+        | _ => None
+        end
+      else None
+  | LErr r :: t =>
+      if o_dl s then
+        match r with
+        | RQuic => match ostep256 orc s OExpire with Ok (s', _) => rt_replay orc s' t | _ => None end
+        | _ => rt_replay orc s t
+        end
+      else None
+  end.
+
+Definition log_dgram (log : list rlog) (i : N) : dgram :=
+  match nth_error log (N.to_nat i) with
+  | Some (LRead _ _ p port _) => mkDg p (rt_addr port)
+  | _ => mkDg [] (rt_addr (-1))
+  end.
+
+Definition dgram_eqb (a b : dgram) : bool :=
+  bytes_eq (g_bytes a) (g_bytes b) && (a_port (g_from a) =? a_port (g_from b))%Z.
+
+Fixpoint dgrams_eqb (a b : list dgram) : bool :=
+  match a, b with
+  | [], [] => true
+  | x :: a', y :: b' => dgram_eqb x y && dgrams_eqb a' b'
+  | _, _ => false
+  end.
+
+Definition rt_check (id : list byte) (m : rmeta) (log : list rlog) (quic : list N) : bool :=
+  let orc := oracle (rt_stun_set log) in
+  forallb stun_hdr_ok (rt_stun_set log) &&
+  forallb (fun p => negb (orc p)) (rt_nonstun_set log) &&
+  match ostep256 orc (o_init 0) (ODemux (AAdd id m)) with
+  | Ok (s0, OODemux (OAdd true)) =>
+      match rt_replay orc s0 log with
+      | Some s' =>
+          dgrams_eqb (o_quic s') (map (log_dgram log) quic) &&
+          (* the model's verdict on the same log: nothing went elsewhere once QUIC serves, no QUIC-side read failed *)
+          Nat.eqb (o_qerr s') 0
+      | None => false
+      end
+  | _ => false
+  end.
+
 Definition check (c : case) : bool :=
   match c with
   | CEnc ty m r => enc_matches ty m r
@@ -353,6 +460,7 @@ Definition check (c : case) : bool :=
       oracle_sane ops && drun (oracle (stun_set ops)) (all_obs ops) (d_new cap) ops
   | CServer cap ops =>
       srun_ops (oracle (s_stun_set ops)) (s_all_obs ops) (mkS (d_new cap) [] true) None None ops
+  | CRt id m log quic => rt_check id m log quic
   end.
 
 Definition mismatches (l : list case) : list nat := mism_from check 0 l.
